@@ -26,10 +26,10 @@ Trace events (one list per (program, simulation), merged by the parent), all dat
   ["sched", method, schedule_class, crews, daily_surveys, [[site, required, months, dep_years, planner_years,
              [[m, d] plan dates], survey_time], ..]]     static planner data when a schedule is built
   ["request", day, method, [sites whose planner issued a request], queue after the take [[cls, rate, site]..],
-             [planned site ids]]                          one per get_workplan
+             [planned site ids], queue size before, number of puts]     one per get_workplan
   ["sstate", day, method, queue after update [[cls, rate, site]..], follow-up flags | None,
              planners ([[site, queued, [[year, done]..], report]..] routine / [[site, report]..] follow-up)]
-             report = None | [in_progress, minutes]
+             report = None | [in_progress, minutes]; last field: site ids that had a report before update
 Events keep the order in which the simulator produced them.
 """
 from __future__ import annotations
@@ -316,12 +316,23 @@ def install_wrappers():
     @functools.wraps(orig_gwp)
     def get_workplan(self, current_date):
         before = [bool(getattr(pl, "_queued", False)) for pl in self._survey_plans]
+        try:
+            q0 = self._survey_queue.qsize()
+            r0 = repr(self._survey_queue.counter)
+            c0 = int(r0[r0.index("(") + 1:r0.index(")")])
+        except Exception:
+            q0 = c0 = None
         wp = orig_gwp(self, current_date)
         try:
             issued = [str(pl.get_site().get_id()) for pl, was in zip(self._survey_plans, before)
                       if getattr(pl, "_queued", False) and not was]
+            try:
+                r1 = repr(self._survey_queue.counter)
+                puts = int(r1[r1.index("(") + 1:r1.index(")")]) - c0
+            except Exception:
+                puts = None
             EVENTS.append(["request", di(current_date), self._method, issued, _q_content(self),
-                           [str(k) for k in wp.site_survey_planners.keys()]])
+                           [str(k) for k in wp.site_survey_planners.keys()], q0, puts])
         except Exception as e:
             EVENTS.append(["request-error", getattr(self, "_method", None), repr(e)])
         return wp
@@ -335,18 +346,22 @@ def install_wrappers():
 
         @functools.wraps(orig)
         def update(self, workplan, current_date, *a, **k):
+            try:
+                rep_keys = [str(x) for x in workplan._site_survey_reports.keys()]
+            except Exception:
+                rep_keys = None
             out = orig(self, workplan, current_date, *a, **k)
             try:
                 if isinstance(self, FollowUpMobileSchedule):
                     flags = sorted(str(s) for s, v in self._site_IDs_in_queue.items() if v)
                     pls = [[str(pl.get_site().get_id()), _rep_state(pl._active_survey_report)]
                            for _p, _c, pl in sorted(self._survey_queue.queue, key=lambda e: (e[0], e[1]))]
-                    EVENTS.append(["sstate", di(current_date), self._method, _q_content(self), flags, pls])
+                    EVENTS.append(["sstate", di(current_date), self._method, _q_content(self), flags, pls, rep_keys])
                 else:
                     pls = [[str(pl.get_site().get_id()), 1 if pl._queued else 0,
                             [[y, c.Surveys_done] for y, c in sorted(pl._surveys_this_year.items())],
                             _rep_state(pl._active_survey_report)] for pl in self._survey_plans]
-                    EVENTS.append(["sstate", di(current_date), self._method, _q_content(self), None, pls])
+                    EVENTS.append(["sstate", di(current_date), self._method, _q_content(self), None, pls, rep_keys])
             except Exception as e:
                 EVENTS.append(["sstate-error", getattr(self, "_method", None), repr(e)])
             return out
